@@ -21,8 +21,42 @@ _rec = {}
 _patched = False
 
 
-def tokens(s):
-    return [t for t in SPLIT.split(s) if t]
+def _isword(c):
+    return c.isalnum() or c == "_"
+
+
+def tokens(s, structure=True):
+    """The token classes of the diff, written out by hand (independent of the implementation's regular expression):
+    a Markdown heading prefix at the start of a line, the table cell separator ' | ', a run of line breaks, a run of
+    other whitespace, a word, or a single other character."""
+    out, p, n = [], 0, len(s)
+    while p < n:
+        c = s[p]
+        q = p
+        if structure and c == "#" and (p == 0 or s[p - 1] == "\n"):
+            while q < n and s[q] == "#":
+                q += 1
+            if q < n and s[q] == " ":
+                out.append(s[p:q + 1])
+                p = q + 1
+                continue
+            q = p
+        if structure and s.startswith(" | ", p):
+            q = p + 3
+        elif c == "\n":
+            while q < n and s[q] == "\n":
+                q += 1
+        elif c.isspace():
+            while q < n and s[q].isspace() and s[q] != "\n":
+                q += 1
+        elif _isword(c):
+            while q < n and _isword(s[q]):
+                q += 1
+        else:
+            q = p + 1
+        out.append(s[p:q])
+        p = q
+    return out
 
 
 def _install_recorder():
@@ -104,9 +138,19 @@ def apply_edits(a, edits):
 
 def token_blocks(s):
     """set of (start,end) char ranges that are concatenations of contiguous whole tokens (incl. empty)."""
+    # the oracle's tokens: words, single punctuation characters, runs of line breaks, runs of other whitespace; the
+    # structural tokens of the extracted text (heading prefix '# ' at the start of a line, cell separator ' | ') may
+    # take one blank out of a whitespace run, so their boundaries count as well.  A word is never cut.
     bounds = [0]
-    for t in tokens(s):
-        bounds.append(bounds[-1] + len(t))
+    for structure in (False, True):
+        pos = 0
+        for t in tokens(s, structure=structure):
+            pos += len(t)
+            bounds.append(pos)
+    k = s.find(" | ")
+    while k >= 0:
+        bounds += [k, k + 3]
+        k = s.find(" | ", k + 1)
     return set(bounds)
 
 
@@ -178,11 +222,11 @@ def compare(case, out):
     return None
 
 
-def enum_strings(maxlen):
-    seen = []
-    s = set()
+def enum_strings(maxlen, toks=None, seen=None, s=None):
+    seen = [] if seen is None else seen
+    s = set() if s is None else s
     for n in range(maxlen + 1):
-        for seq in itertools.product(TOKENS, repeat=n):
+        for seq in itertools.product(toks or TOKENS, repeat=n):
             x = "".join(seq)
             if x not in s:
                 s.add(x)
@@ -203,7 +247,11 @@ def rand_text(rng, n):
         parts.pop()
     if rng.random() < 0.15:
         parts.insert(0, rng.choice(SEPS))
-    return "".join(parts)
+    text = "".join(parts)
+    if rng.random() < 0.3:
+        # Markdown headings at the start of some lines
+        text = "\n".join((rng.choice(["# ", "## ", "#", "# # "]) if rng.random() < 0.4 else "") + ln for ln in text.split("\n"))
+    return text
 
 
 def mutate(rng, s):
@@ -223,7 +271,9 @@ def mutate(rng, s):
 
 def gen_pairs(tier, seed):
     rng = random.Random(seed * 7919 + 13)
-    ex = enum_strings(2 if tier == "quick" else 3)
+    ex = enum_strings(2)
+    if tier != "quick":
+        ex = enum_strings(3, TOKENS[:10], ex, set(ex))
     pairs = [(a, b) for a in ex for b in ex]
     nrand = 3000 if tier == "quick" else 60000
     rnd = []
@@ -308,12 +358,27 @@ def run(tier, seed, driver_ok):
     hyp = {"Normal": 0, "concl_apply": 0, "concl_sorted": 0, "concl_targets_at": 0}
     compared = 0
     if driver_ok:
+        got = [tuple(r) for r in common.run_driver([{"op": "isword", "hi": 0x110000}])[0]["ranges"]]
+        want, start = [], None
+        for cp in range(0x110000):
+            w = not (0xD800 <= cp <= 0xDFFF) and _isword(chr(cp))
+            if w and start is None:
+                start = cp
+            if not w and start is not None:
+                want.append((start, cp - 1))
+                start = None
+        if start is not None:
+            want.append((start, 0x10FFFF))
+        if got != want:
+            bad = [x for x in set(got) ^ set(want)][:5]
+            mism.append({"corr": "Python \\w table vs Adeu.pyIsWord", "case": {"a": "", "b": ""},
+                         "what": f"word tables differ, e.g. {sorted(bad)}"})
         outs = common.run_driver_parallel([driver_line(c) for c in comparable])
         for c, o in zip(comparable, outs):
             compared += 1
             d = compare(c, o)
             if d:
-                mism.append({"corr": "generate_edits_from_text vs Adeu.Diff.editsOfDiffs",
+                mism.append({"corr": "generate_edits_from_text vs Adeu.Diff.editsOfRaw",
                              "case": {"a": c["a"], "b": c["b"]}, "what": d})
             if "hyp" in o:
                 hyp["Normal"] += bool(o["hyp"]["Normal"])
@@ -325,8 +390,8 @@ def run(tier, seed, driver_ok):
         "known": known,
         "evaluations": len(cases),
         "distinct_nontrivial": len(nontrivial),
-        "rule": (f"all pairs of the {nstrings} distinct strings made of <= {2 if tier == 'quick' else 3} tokens of "
-                 f"{TOKENS!r} (exhaustive), plus {len(rnd_pairs)} seeded random word-level rewrites and a fixed corpus; "
+        "rule": (f"all pairs of the {nstrings} distinct strings made of <= 2 tokens of {TOKENS!r}"
+                 + ("" if tier == "quick" else " and <= 3 tokens of its first ten") + " (exhaustive), plus {len(rnd_pairs)} seeded random word-level rewrites and a fixed corpus; "
                  "non-trivial = distinct pair that produced at least one edit"),
         "exhaustive": True,
         "samples": samples or [{"a": cases[0]["a"], "b": cases[0]["b"], "edits": cases[0]["edits"]}],
@@ -339,7 +404,8 @@ def run(tier, seed, driver_ok):
             "diff-match-patch is a parameter of the model: its output satisfies src=first text, dst=second text, "
             "token-wise entries (monitored on every case of this run: "
             f"{contract_breaks} breaks)",
-            "Python's re tokenisation (\\s+|\\w+|[^\\w\\s]) is used by both the implementation and the oracle",
+            "the oracle tokenises by hand (words, single punctuation characters, runs of line breaks, runs of other "
+            "whitespace); Python's \\w table (all code points) is compared with Adeu.pyIsWord on every run",
         ],
     }
 
